@@ -11,7 +11,7 @@
 //!   X4  ghost-state threading: trailing `Tracked(w): Tracked<&mut World>` parameter, trailing
 //!       `Tracked(w)` argument on calls of the callees listed as stateful
 //!   X5  strip attributes / doc comments from extracted items
-//!   X6  fragment wrapper (`frag=`): statements of the host function wrapped in a fn whose
+//!   X6  fragment wrapper (`frag=`; kinds stmts:a..b, ifthen:, ifexpr:, matcharm:, closure:, loop:N, loopbody:N, body): statements of the host function wrapped in a fn whose
 //!       signature is given in the template
 //!   X7  (nothing to do: generic impl headers are written in the template)
 //!   X8  closure parameter `_` -> `_vxN` (Verus accepts only variable binders; pure rename)
@@ -798,6 +798,14 @@ impl<'a, 'ast> Visit<'ast> for FragFinder<'a> {
         if self.found.is_some() {
             return;
         }
+        if let Some(sub) = self.spec.strip_prefix("ifexpr:") {
+            // the whole `if` expression (condition, then-block and else): the decision itself is under contract
+            let (s, e) = rng(i.cond.span());
+            if self.src[s..e].contains(sub) && { if self.skip > 0 { self.skip -= 1; false } else { true } } {
+                self.found = Some(rng(i.span()));
+                return;
+            }
+        }
         if let Some(sub) = self.spec.strip_prefix("ifthen:") {
             let (s, e) = rng(i.cond.span());
             if self.src[s..e].contains(sub) && { if self.skip > 0 { self.skip -= 1; false } else { true } } {
@@ -840,6 +848,19 @@ impl<'a, 'ast> Visit<'ast> for FragFinder<'a> {
     fn visit_expr(&mut self, e: &'ast syn::Expr) {
         if self.found.is_some() {
             return;
+        }
+        if let Some(n) = self.spec.strip_prefix("loopbody:") {
+            // the statements of the N-th loop's body (the loop head - what is iterated - is NOT part of the fragment)
+            let body = match e { syn::Expr::While(w) => Some(&w.body), syn::Expr::ForLoop(f) => Some(&f.body), syn::Expr::Loop(l) => Some(&l.body), _ => None };
+            if let Some(b) = body {
+                self.loop_ctr += 1;
+                if n.parse::<usize>().ok() == Some(self.loop_ctr) {
+                    let (bs, _) = rng(b.brace_token.span.open());
+                    let (_, be) = rng(b.brace_token.span.close());
+                    self.found = Some((bs + 1, be - 1));
+                    return;
+                }
+            }
         }
         if let Some(n) = self.spec.strip_prefix("loop:") {
             let is_loop = matches!(e, syn::Expr::While(_) | syn::Expr::ForLoop(_) | syn::Expr::Loop(_));
